@@ -205,13 +205,14 @@ Variable fs : text -> option text.
 Variable cwd main_path : text.
 
 (* a statement other than the end marker consumes at least one token, and only ever advances *)
-Lemma pstmt_progress : forall f s st s1, eot s -> noimp s -> pstmt fs cwd main_path f s = Ok (st, s1) ->
+(* one statement that does not begin with a comment or an import *)
+Lemma pstmt_plain_progress : forall f s st s1, eot s -> hk s <> TImport -> hk s <> TComment ->
+  pstmt fs cwd main_path (S f) s = Ok (st, s1) ->
   advances s s1 /\ match st with FEOS _ => True | _ => len s1 < len s end.
 Proof.
-  induction f as [|f IH]; intros s st s1 He Hn H; [discriminate|]. cbn [pstmt] in H.
+  intros f s st s1 He Hni Hnc H. cbn [pstmt] in H.
   destruct (pos_here s) as [p| | |] eqn:Ep; cbn [bind] in H; try discriminate.
   apply pos_here_some in Ep. destruct (adv_len s) as [_ Hc]. specialize (Hc Ep).
-  pose proof (noimp_hk s He Hn) as Hni.
   assert (Hexp : forall s0 e s', expression f s0 = Ok (e, s') -> advances s0 s' /\ len s' < len s0).
   { intros s0 e s' E. split; [eapply expression_advances; exact E|]. destruct (expression_total f s0) as [_ Hp]. eapply Hp; exact E. }
   destruct (hk s) eqn:Ek; try (exfalso; eapply syntax_here_not_ok; exact H); try congruence.
@@ -244,9 +245,6 @@ Proof.
     injection H as <- <-. pose proof (adv_len s3) as [Hl4 _].
     split; [apply advances_adv_l, advances_adv_l; apply advances_then_adv; exact Ha3|lia].
   - (* function *) destruct (pos_prev (adv s)) as [q| | |]; cbn [bind] in H; try discriminate. injection H as <- <-. split; [apply advances_adv|lia].
-  - (* comment *)
-    destruct (IH (adv s) st s1 (eot_adv s He) (noimp_adv s Hn) H) as [Ha Hl]. split; [apply advances_adv_l; exact Ha|].
-    destruct st; try exact I; lia.
   - (* { *) destruct (pos_prev (adv s)) as [q| | |]; cbn [bind] in H; try discriminate. injection H as <- <-. split; [apply advances_adv|lia].
   - (* } *) destruct (pos_prev (adv s)) as [q| | |]; cbn [bind] in H; try discriminate. injection H as <- <-. split; [apply advances_adv|lia].
   - (* break *) injection H as <- <-. pose proof (adv_len (adv s)) as [Hl2 _]. split; [apply advances_adv_l, advances_adv|lia].
@@ -266,11 +264,28 @@ Proof.
   - (* end marker *) injection H as <- <-. split; [apply advances_refl|exact I].
 Qed.
 
-Lemma pstmt_terminates : forall f s, eot s -> noimp s -> 50 * len s + 45 <= f -> fin (pstmt fs cwd main_path f s).
+Lemma pstmt_comment f s : hk s = TComment -> pstmt fs cwd main_path (S f) s = (do p <- pos_here s; pstmt fs cwd main_path f (adv s)).
+Proof. intros Ek. cbn [pstmt]. rewrite Ek. reflexivity. Qed.
+
+Lemma pstmt_progress : forall f s st s1, eot s -> noimp s -> pstmt fs cwd main_path f s = Ok (st, s1) ->
+  advances s s1 /\ match st with FEOS _ => True | _ => len s1 < len s end.
 Proof.
-  induction f as [|f IH]; intros s He Hn Hf; [lia|]. cbn [pstmt].
-  apply fin_bind; [apply fin_pos_here|]. intros p Ep. apply pos_here_some in Ep. destruct (adv_len s) as [_ Hc]. specialize (Hc Ep).
+  induction f as [|f IH]; intros s st s1 He Hn H; [discriminate|].
   pose proof (noimp_hk s He Hn) as Hni.
+  assert (Hdec : hk s = TComment \/ hk s <> TComment) by (destruct (hk s); solve [left; reflexivity | right; discriminate]).
+  destruct Hdec as [Ec|Ec]; [|exact (pstmt_plain_progress f s st s1 He Hni Ec H)].
+  rewrite (pstmt_comment f s Ec) in H.
+  destruct (pos_here s) as [p| | |] eqn:Ep; cbn [bind] in H; try discriminate.
+  apply pos_here_some in Ep. destruct (adv_len s) as [_ Hc]. specialize (Hc Ep).
+  destruct (IH (adv s) st s1 (eot_adv s He) (noimp_adv s Hn) H) as [Ha Hl]. split; [apply advances_adv_l; exact Ha|].
+  destruct st; try exact I; lia.
+Qed.
+
+Lemma pstmt_plain_terminates : forall f s, eot s -> hk s <> TImport -> hk s <> TComment -> 50 * len s + 45 <= S f ->
+  fin (pstmt fs cwd main_path (S f) s).
+Proof.
+  intros f s He Hni Hnc Hf. cbn [pstmt].
+  apply fin_bind; [apply fin_pos_here|]. intros p Ep. apply pos_here_some in Ep. destruct (adv_len s) as [_ Hc]. specialize (Hc Ep).
   assert (Hexp1 : forall s0, eot s0 -> len s0 <= len s -> fin (expression f s0)) by (intros s0 H0 Hl; apply expression_terminates; [exact H0|lia]).
   destruct (hk s) eqn:Ek; try apply fin_syntax_here; try congruence; try exact I.
   - (* identifier *)
@@ -291,7 +306,6 @@ Proof.
     + destruct (hk (adv (adv s))); try exact I; (apply fin_bind; [apply Hexp1; [apply eot_adv, eot_adv, eot_adv; exact He|lia]|]; intros [e s3] _; exact I).
     + intros [init s3] _. destruct (hk s3); try exact I; destruct (at_end s3); try exact I; destruct (ps_prev s3); exact I.
   - apply fin_bind; [apply fin_pos_prev|]. intros q _. exact I.
-  - (* comment *) apply IH; [apply eot_adv; exact He|apply noimp_adv; exact Hn|lia].
   - apply fin_bind; [apply fin_pos_prev|]. intros q _. exact I.
   - apply fin_bind; [apply fin_pos_prev|]. intros q _. exact I.
   - (* return *)
@@ -299,6 +313,17 @@ Proof.
     destruct (hk (adv s)); try exact I; (apply Hexp1; [apply eot_adv; exact He|lia]).
   - apply fin_bind; [apply Hexp1; [apply eot_adv; exact He|lia]|]. intros [e s1] _. exact I.
   - apply fin_bind; [apply Hexp1; [apply eot_adv; exact He|lia]|]. intros [e s1] _. exact I.
+Qed.
+
+Lemma pstmt_terminates : forall f s, eot s -> noimp s -> 50 * len s + 45 <= f -> fin (pstmt fs cwd main_path f s).
+Proof.
+  induction f as [|f IH]; intros s He Hn Hf; [lia|].
+  pose proof (noimp_hk s He Hn) as Hni.
+  assert (Hdec : hk s = TComment \/ hk s <> TComment) by (destruct (hk s); solve [left; reflexivity | right; discriminate]).
+  destruct Hdec as [Ec|Ec]; [|exact (pstmt_plain_terminates f s He Hni Ec Hf)].
+  rewrite (pstmt_comment f s Ec).
+  apply fin_bind; [apply fin_pos_here|]. intros p Ep. apply pos_here_some in Ep. destruct (adv_len s) as [_ Hc]. specialize (Hc Ep).
+  apply IH; [apply eot_adv; exact He|apply noimp_adv; exact Hn|lia].
 Qed.
 
 Theorem pprogram_terminates : forall f s, eot s -> noimp s -> 50 * len s + 50 <= f -> fin (pprogram fs cwd main_path f s).
